@@ -1231,8 +1231,31 @@ func (v *c17Env) runLines(c *Case) {
 			v.oracleKill("cleanup of its connection", func(t *c17Tx) bool { return t.conn == conn })
 			releasing = true
 		case "shutdown":
-			v.out("M " + v.shutdown())
+			// `shutdown expired`: the context is over before the call (cmd/kevo passes the context of
+			// a GracefulStop that missed its deadline): every transaction is rolled back all the same
+			expired := len(l) > 1 && l[1] == "expired"
+			v.out("M " + v.shutdown(expired))
 			v.quiesce()
+			if expired {
+				// with a context that is over, GracefulShutdown does not wait for the rollbacks it
+				// started (one goroutine each, not among the calls this harness tracks): they get 2 s
+				dl := time.Now().Add(2 * time.Second)
+				for time.Now().Before(dl) {
+					open := false
+					for _, t := range v.txs {
+						if t.live() && !t.removed && t.obj != nil && t.grantLine < v.lineNo {
+							if _, err := t.obj.Get([]byte("k1")); !errors.Is(err, transaction.ErrTransactionClosed) {
+								open = true
+							}
+						}
+					}
+					if !open {
+						break
+					}
+					time.Sleep(5 * time.Millisecond)
+				}
+				v.quiesce()
+			}
 			v.oracleKill("registry shutdown", func(t *c17Tx) bool { return true })
 			releasing = true
 		case "failnext":
@@ -1279,7 +1302,7 @@ func (v *c17Env) parked() []*c17Inner {
 	return r
 }
 
-func (v *c17Env) shutdown() (res string) {
+func (v *c17Env) shutdown(expired bool) (res string) {
 	defer func() {
 		if r := recover(); r != nil {
 			res = "panic"
@@ -1287,6 +1310,9 @@ func (v *c17Env) shutdown() (res string) {
 	}()
 	ctx, cancel := context.WithTimeout(context.Background(), 2*time.Second)
 	defer cancel()
+	if expired {
+		cancel()
+	}
 	v.shut = true
 	v.reg.GracefulShutdown(ctx)
 	return "ok"
@@ -1404,7 +1430,7 @@ func (v *c17Env) stop() {
 		}
 	}
 	if v.reg != nil && !v.shut {
-		v.shutdown()
+		v.shutdown(false)
 	}
 	// whatever still holds the lock (only after a failure) is released by hand
 	for i := 0; i < 20; i++ {
